@@ -155,6 +155,81 @@ viol(struct actx *x, const char *prop, const char *fname, const char *what, cons
         ev_violation(prop, key, det, rep);
 }
 
+/* "The corresponding error code" (C12) by the role of the perturbed argument; -1: role not classified */
+static int
+null_code_ok(const char *kind, int err)
+{
+        static const struct {
+                const char *prefix;
+                int a, b;
+        } t[] = {
+                { "src", IMB_ERR_NULL_SRC, IMB_ERR_NULL_SRC },      { "dst", IMB_ERR_NULL_DST, IMB_ERR_NULL_DST },
+                { "iv", IMB_ERR_NULL_IV, IMB_ERR_NULL_IV },         { "aad", IMB_ERR_NULL_AAD, IMB_ERR_NULL_AAD },
+                { "ctx", IMB_ERR_NULL_CTX, IMB_ERR_NULL_CTX },      { "tag", IMB_ERR_NULL_AUTH, IMB_ERR_NULL_AUTH },
+                { "lenarr", IMB_ERR_CIPH_LEN, IMB_ERR_AUTH_LEN },   { "key", IMB_ERR_NULL_KEY, IMB_ERR_NULL_EXP_KEY },
+                { "enckeys", IMB_ERR_NULL_KEY, IMB_ERR_NULL_EXP_KEY }, { "deckeys", IMB_ERR_NULL_KEY, IMB_ERR_NULL_EXP_KEY },
+                { "deskeys", IMB_ERR_NULL_KEY, IMB_ERR_NULL_EXP_KEY }, { "kasumikeys", IMB_ERR_NULL_KEY, IMB_ERR_NULL_EXP_KEY },
+                { "snow3gkeys", IMB_ERR_NULL_KEY, IMB_ERR_NULL_EXP_KEY }, { "subkey", IMB_ERR_NULL_KEY, IMB_ERR_NULL_EXP_KEY },
+                { "k1exp", IMB_ERR_NULL_KEY, IMB_ERR_NULL_EXP_KEY }, { "k2", IMB_ERR_NULL_KEY, IMB_ERR_NULL_EXP_KEY },
+                { "k3", IMB_ERR_NULL_KEY, IMB_ERR_NULL_EXP_KEY },
+        };
+        if (!strcmp(kind, "?"))
+                return -1;
+        for (unsigned i = 0; i < ARRAY_SZ(t); i++)
+                if (!strncmp(kind, t[i].prefix, strlen(t[i].prefix)))
+                        return err == t[i].a || err == t[i].b;
+        return -1;
+}
+static int
+limit_code_ok(const char *lname, int err)
+{
+        if (!strncmp(lname, "len", 3) || !strncmp(lname, "bitlen", 6) || !strncmp(lname, "msglen", 6))
+                return err == IMB_ERR_CIPH_LEN || err == IMB_ERR_AUTH_LEN;
+        if (!strncmp(lname, "ivlen", 5))
+                return err == IMB_ERR_IV_LEN;
+        if (!strncmp(lname, "keysize", 7))
+                return err == IMB_ERR_KEY_LEN;
+        if (!strncmp(lname, "taglen", 6))
+                return err == IMB_ERR_AUTH_TAG_LEN;
+        return -1;
+}
+/* C08: the error code of the same perturbed direct call is the same on every variant (each process runs a given
+ * function and round on all variants) */
+static struct agr {
+        uint64_t h;
+        int err;
+        char vn[12];
+} g_agr[8192];
+static uint64_t n_code_judged, n_code_agree;
+static void
+code_agreement(struct actx *x, const struct fdesc *f, const char *pert, int err)
+{
+        uint64_t h = 1469598103934665603ull;
+        for (const char *s = f->name; *s; s++)
+                h = (h ^ (uint8_t) *s) * 1099511628211ull;
+        for (const char *s = pert; *s; s++)
+                h = (h ^ (uint8_t) *s) * 1099511628211ull;
+        h |= 1;
+        for (unsigned i = (unsigned) (h % ARRAY_SZ(g_agr)), k = 0; k < ARRAY_SZ(g_agr); k++, i = (i + 1) % ARRAY_SZ(g_agr)) {
+                if (g_agr[i].h == 0) {
+                        g_agr[i].h = h;
+                        g_agr[i].err = err;
+                        snprintf(g_agr[i].vn, sizeof g_agr[i].vn, "%s", x->vn);
+                        return;
+                }
+                if (g_agr[i].h == h) {
+                        n_code_agree++;
+                        if (g_agr[i].err != err) {
+                                char what[120];
+                                snprintf(what, sizeof what, "%s-code-differs-between-variants", pert);
+                                viol(x, "C08", f->name, what, "error code %d here, %d on %s for the same perturbed call", err, g_agr[i].err,
+                                     g_agr[i].vn);
+                        }
+                        return;
+                }
+        }
+}
+
 /* name of the perturbation currently applied (modes null / limit) */
 static const char *
 pert_name(struct actx *x)
@@ -2285,9 +2360,22 @@ run_null(struct actx *x, const struct fdesc *f, struct call *c, int argi, int el
                 snprintf(what, sizeof what, "%s-return-ok", pert);
                 viol(x, "C12", f->name, what, "argument %d NULL: the function returned 0 (success), errno %d", argi, err);
         }
+        const char *kind = c->v.a[argi].obj >= 0 ? c->o[c->v.a[argi].obj].kind : "?";
+        if (err != 0) {
+                const int ok = null_code_ok(kind, err);
+                if (ok >= 0)
+                        n_code_judged++;
+                if (ok == 0) {
+                        snprintf(what, sizeof what, "%s-wrong-code", pert);
+                        viol(x, "C12", f->name, what, "NULL %s argument (%d%s): error code %d (%s) does not name that argument", kind, argi,
+                             elem >= 0 ? ", one array element" : "", err, imb_get_strerror(err));
+                }
+                code_agreement(x, f, pert, err);
+        }
         cov_hit("abi_null_code", "%s|arg%d%s|%d", f->name, argi, elem >= 0 ? "elem" : "", err);
         if (g_opt.verbose)
-                ev_printf("{\"ev\":\"abi_code\",\"v\":\"%s\",\"fn\":\"%s\",\"pert\":\"%s\",\"errno\":%d}", x->vn, f->name, pert, err);
+                ev_printf("{\"ev\":\"abi_code\",\"v\":\"%s\",\"fn\":\"%s\",\"pert\":\"%s\",\"errno\":%d,\"kind\":\"%s\",\"role\":%d}", x->vn,
+                          f->name, pert, err, kind, c->v.a[argi].obj >= 0 ? (int) c->o[c->v.a[argi].obj].role : -1);
 }
 
 static void
@@ -2339,6 +2427,17 @@ run_limit(struct actx *x, const struct fdesc *f, struct call *c, int li, const s
                 snprintf(what, sizeof what, "%s-no-errno", pert);
                 viol(x, "C12", f->name, what, "limit violated (%s: argument %d%s = %#llx) but no error code was set", l.name, l.arg,
                      l.elem >= 0 ? " element" : "", (unsigned long long) l.val);
+        }
+        if (err != 0) {
+                const int ok = limit_code_ok(l.name, err);
+                if (ok >= 0)
+                        n_code_judged++;
+                if (ok == 0) {
+                        snprintf(what, sizeof what, "%s-wrong-code", pert);
+                        viol(x, "C12", f->name, what, "limit violated (%s = %#llx): error code %d (%s) does not name that constraint", l.name,
+                             (unsigned long long) l.val, err, imb_get_strerror(err));
+                }
+                code_agreement(x, f, pert, err);
         }
         cov_hit("abi_limit_code", "%s|%s|%d", f->name, l.name, signalled && err == 0 ? -1 : err);
         if (g_opt.verbose)
@@ -2605,6 +2704,8 @@ eng_abi(void)
         cov_count("direct_outputs_verified_by_reference", n_ref);
         cov_count("direct_outputs_verified_by_nversion", n_nver);
         cov_count("direct_functions", (uint64_t) NFN);
+        cov_count("direct_error_codes_judged_by_role", n_code_judged);
+        cov_count("direct_error_codes_compared_between_variants", n_code_agree);
         if (!g_opt.arg1)
                 legacy_sweep();
         free(nver_tab);
